@@ -493,8 +493,14 @@ func (cs *ContractSet) ParseContractFile(path string) error {
 				}
 				cs.Funcs[c.Name] = c
 			case "spec":
+				if _, dup := cs.Specs[c.Name]; dup {
+					fail(lineNo, "duplicate spec %s (spec names are global)", c.Name)
+				}
 				cs.Specs[c.Name] = c
 			case "lemma":
+				if _, dup := cs.Lemmas[c.Name]; dup {
+					fail(lineNo, "duplicate lemma %s (lemma names are global)", c.Name)
+				}
 				cs.Lemmas[c.Name] = c
 			case "interface":
 				cs.Interfaces[c.Name] = c
